@@ -94,3 +94,49 @@ Proof.
   rewrite norm_p_R by lra. apply f_equal. rewrite rpow_half by apply psum_nonneg. rewrite norm_2_R. apply f_equal.
   unfold psum, sumsq. apply f_equal. apply map_ext. intros x. rewrite rpow_2 by apply Rabs_pos. apply abs_sq.
 Qed.
+
+(* ------------------------------------------------------------------ powspace over R *)
+From OV Require Import Proofs.ParDot.
+
+Lemma rpow_0 p : rpow 0 p = 0.
+Proof. unfold rpow. destruct (Req_EM_T 0 0); [reflexivity|contradiction]. Qed.
+
+Lemma rpow_one p : rpow 1 p = 1.
+Proof. unfold rpow. destruct (Req_EM_T 1 0); [lra|]. unfold Rpower. rewrite ln_1, Rmult_0_r. apply exp_0. Qed.
+
+Lemma rpow_lt x y p : 0 < p -> 0 <= x -> x < y -> rpow x p < rpow y p.
+Proof.
+  intros Hp Hx Hxy. unfold rpow. destruct (Req_EM_T y 0); [lra|].
+  destruct (Req_EM_T x 0) as [->|Nx].
+  - unfold Rpower. apply exp_pos.
+  - apply Rlt_Rpower_l; lra.
+Qed.
+
+Lemma powspace_ok (a b p : R) n : (2 <= n)%nat ->
+  powspace (F := SAR) rpow a b n p
+  = Ok (map (fun i => a + (b - a) * rpow (INR i * / INR (n - 1)) p) (seq 0 n)).
+Proof.
+  intros Hn. unfold powspace. apply mapM_ok. intros i _. cbn. unfold R_div, R_eqb.
+  replace (INR n - 1) with (INR (n - 1)) by (rewrite minus_INR by lia; reflexivity).
+  destruct (Req_EM_T (INR (n - 1)) 0) as [E|_]; [|reflexivity].
+  exfalso. apply (not_0_INR (n - 1)); [lia|exact E].
+Qed.
+
+Lemma powspace_spec_lemma (a b p : R) n : (2 <= n)%nat -> 0 < p ->
+  exists l, powspace (F := SAR) rpow a b n p = Ok l /\ length l = n /\ hd 0 l = a /\ last l 0 = b /\
+            (a < b -> forall i j, (i < j < n)%nat -> nth i l 0 < nth j l 0).
+Proof.
+  intros Hn Hp. rewrite powspace_ok by exact Hn. eexists; split; [reflexivity|].
+  assert (Hk : 0 < INR (n - 1)) by (apply lt_0_INR; lia).
+  split; [now rewrite map_length, seq_length|]. split; [|split].
+  - destruct n as [|n]; [lia|]. cbn [seq map hd]. cbn [INR]. rewrite Rmult_0_l, rpow_0. lra.
+  - destruct n as [|n]; [lia|]. rewrite seq_S, map_app. cbn [map]. rewrite last_last. cbn [plus].
+    replace (S n - 1)%nat with n by lia. replace (INR n * / INR n) with 1 by (field; replace (S n - 1)%nat with n in Hk by lia; lra).
+    rewrite rpow_one. lra.
+  - intros Hab i j Hij. rewrite !nth_map_seq by lia.
+    assert (Hi : 0 <= INR i * / INR (n - 1)).
+    { apply Rmult_le_pos; [apply pos_INR|]. left. now apply Rinv_0_lt_compat. }
+    assert (Hlt : INR i * / INR (n - 1) < INR j * / INR (n - 1)).
+    { apply Rmult_lt_compat_r; [now apply Rinv_0_lt_compat|]. apply lt_INR. lia. }
+    pose proof (rpow_lt _ _ p Hp Hi Hlt). nra.
+Qed.
